@@ -41,7 +41,34 @@ type ACase struct {
 	Typ  string `json:"type"`
 	In   int    `json:"input"`
 	View string `json:"view"` // owning | T | slice
-	Key  string `json:"key"`
+	// Dst: derivative state of the start vector of the entry points that take a FUNCTION argument and
+	// differentiate it at (a copy of) the start vector (Real64 only): 0 plain values | 1 first order
+	// content over 3 variables | 2 second order content over 1 variable | 3 second order content over
+	// as many variables as elements (values other than the ones Variables() would set)
+	Dst int    `json:"deriv_state,omitempty"`
+	Key string `json:"key"`
+}
+
+// algoTakesFunction: entry points with an objective / gradient callback and a start vector
+func algoTakesFunction(a string) bool {
+	switch a {
+	case "rprop", "bfgs", "newton", "gradientDescent", "adam":
+		return true
+	}
+	return false
+}
+
+func algoDerivState(x ad.Vector, dst int) {
+	for i := 0; i < x.Dim(); i++ {
+		switch dst {
+		case 1:
+			setDerivs(x.At(i), 1, 3, i)
+		case 2:
+			setDerivs(x.At(i), 2, 1, i)
+		case 3:
+			setDerivs(x.At(i), 2, x.Dim(), i)
+		}
+	}
 }
 
 // symmetric positive definite inputs with small integer entries
@@ -277,6 +304,7 @@ func runAlgo(cs ACase) (fails []failure, outcome string) {
 	var in, parent any
 	if algoIsOptimizer(cs.Algo) {
 		x, p := algoVector(cs.Typ, cs.In, cs.View)
+		algoDerivState(p, cs.Dst)
 		in, parent = x, p
 	} else {
 		m, p := algoMatrix(cs.Typ, cs.In, cs.View)
@@ -475,8 +503,8 @@ func runAlgo(cs ACase) (fails []failure, outcome string) {
 			what = "parent-of-input"
 		}
 		key := fmt.Sprintf("algo-input|%s|%s|%s", cs.Algo, cs.View, what)
-		msg := fmt.Sprintf("%s (option set %d, %s, input %d as %s view) changed its input: before %s / parent %s, after %s / parent %s",
-			cs.Algo, cs.Opt, cs.Typ, cs.In, cs.View, b0, b1, a0, a1)
+		msg := fmt.Sprintf("%s (option set %d, %s, input %d as %s view, derivative state %d) changed its input: before %s / parent %s, after %s / parent %s",
+			cs.Algo, cs.Opt, cs.Typ, cs.In, cs.View, cs.Dst, b0, b1, a0, a1)
 		if perr != "" {
 			msg += " (panicked: " + perr + ")"
 		}
@@ -493,6 +521,11 @@ func enumACases(thorough bool, emit func(ACase)) {
 					for k := range algoX0 {
 						for _, view := range []string{"owning", "slice"} {
 							emit(ACase{Algo: a, Opt: opt, Typ: typ, In: k, View: view})
+							if typ == "Real64" && algoTakesFunction(a) {
+								for dst := 1; dst <= 3; dst++ {
+									emit(ACase{Algo: a, Opt: opt, Typ: typ, In: k, View: view, Dst: dst})
+								}
+							}
 						}
 					}
 				} else {
